@@ -28,7 +28,7 @@ from fsim.world import stable_hash
 from machines.build import BUILD_STUBS
 
 NAMES = {'n0': ['x', 'y'], 'n1': ['y', 'extra', 'more'], 'N2': ['x', 'k'],
-         'N3': ['x', 'y']}
+         'N3': ['x', 'y']}   # no annotated stub: tagged values print with their tags
 KEYS = ['k', 'key_1', 'a b', 'x.y', 'k-2', 'q[0]', '7', '12', '007', '1e3', 0, 1, 7, 42]
 
 
